@@ -202,6 +202,32 @@ def conditions_sharing_a_dictionary_do_not_interfere(S):
         S.forall("data-function-evaluated-on-the-second-conditions-own-points", f, lambda q: zreal(f.val.at(q)) == w1.fdata.value_terms([zreal(X2.at([q[0], (2,)])), zreal(X2.at([q[0], (0,)])), zreal(X2.at([q[0], (1,)]))])[0])
 
 
+@scenario("C14", [C + "Condition._setup_data_functions", C + "SingleModuleCondition.__init__", C + "SingleModuleCondition.forward", SS + ".sample_points"], configs=["plain-sampler", "static-sampler"], bounded=BOUND + "; two conditions sharing one sampler, data functions registered under the same key")
+def conditions_sharing_a_sampler_keep_their_own_data_functions(S):
+    """two conditions built on the SAME (static) sampler, each with its own data function under the same key 'f': each
+    behaves as if constructed alone -- the second one evaluates ITS function (not the first one's, however data may
+    be pre-evaluated or cached) on the sampled points, in either evaluation order"""
+    static = S.cfg == "static-sampler"
+    w = World(S, static=static)
+    f1 = w.fdata
+    f2 = RowFn("fdata2", ["t", "x"], 1, {"t": 1, "x": 2})
+    res2 = RowFn("res2", ["u", "x", "t", "D", "f"], 2, {"u": 2, "x": 2, "t": 1, "D": 1, "f": 1})
+    c1 = S.new(C + "SingleModuleCondition", w.model.obj, w.sobj, w.res, w.E, reduce_fn=w.Rd, data_functions={"f": f1}, parameter=w.D)
+    c2 = S.new(C + "SingleModuleCondition", w.model.obj, w.sobj, res2, w.E, reduce_fn=w.Rd, data_functions={"f": f2}, parameter=w.D)
+    S.method(c2, "forward")
+    S.method(c1, "forward")
+    S.ensure("each-residual-called-once", len(res2.calls) == 1 and len(w.res.calls) == 1)
+    if not (len(res2.calls) == 1 and len(w.res.calls) == 1):
+        return
+    for (nm, rc, fn_) in (("second", res2.calls[0], f2), ("first", w.res.calls[0], f1)):
+        f = rc["kwargs"].get("f")
+        xk, tk = rc["kwargs"].get("x"), rc["kwargs"].get("t")
+        ok = isinstance(f, Tensor) and isinstance(xk, Tensor) and isinstance(tk, Tensor) and f.val.rank == 2
+        S.ensure(f"{nm}-condition-gets-data-and-coordinates", ok)
+        if ok:
+            S.forall(f"{nm}-condition-evaluates-its-OWN-data-function-at-its-points", f, lambda q, f=f, xk=xk, tk=tk, fn_=fn_: zreal(f.val.at(q)) == fn_.value_terms([zreal(tk.val.at([q[0], ()])), zreal(xk.val.at([q[0], (0,)])), zreal(xk.val.at([q[0], (1,)]))])[0])
+
+
 def I_entails(S, f):
     return S.ctx.entails(f)
 
